@@ -18,7 +18,8 @@ func VerifC08_PebbleAlerts() {
 	topo := vxPoolTopo(k)
 	for i := 0; i < n; i++ {
 		sg := detection.Signature{ID: ids[i], Name: "n", TopologyHash: vxTopoHash(k), NodeCount: i}
-		sg.EntropyScore = vxSelF64([]float64{topo.EntropyScore, topo.EntropyScore + 0.25, 7.9}, vxIntRange(0, 2))
+		// (the last value differs from the first by little, so that two confidences can lie within a hundredth of each other)
+		sg.EntropyScore = vxSelF64([]float64{topo.EntropyScore, topo.EntropyScore + 0.25, 7.9, topo.EntropyScore + 0.01}, vxIntRange(0, 3))
 		sg.EntropyTolerance = vxSelF64([]float64{0, 0.5}, vxIntRange(0, 1))
 		if vxBool() {
 			sg.IdentifyingFeatures.RequiredCalls = []string{"net.Dial"}
